@@ -47,8 +47,24 @@ class VClock:
         return getattr(_time, name)
 
 
-def http_date(ts: float) -> str:
-    return _time.strftime("%a, %d %b %Y %H:%M:%S GMT", _time.gmtime(ts))
+DATE_FORMATS = [
+    "%a, %d %b %Y %H:%M:%S GMT",      # RFC 1123
+    "%A, %d-%b-%y %H:%M:%S GMT",      # RFC 850, two-digit year
+    "%a %b %e %H:%M:%S %Y",           # asctime()
+    "%d %b %Y %H:%M:%S",              # no weekday, no zone
+    "%a, %d-%b-%Y %H:%M:%S GMT",      # the Netscape cookie form
+    "%d %B %Y %H:%M:%S GMT",          # full month name
+    "%H:%M:%S %d %b %Y",              # time first
+    "%a, %d %b %Y %H:%M:%S +0000",    # numeric zone (ignored by the RFC 6265 algorithm)
+    "%a,%d %b %Y  %H:%M:%S\tGMT",     # odd delimiters
+]
+BAD_DATES = ["", "garbage", "32 Jan 2031 00:00:00 GMT", "Jan 2031 00:00:00", "01 Jan 2031", "01 Foo 2031 00:00:00", "01 Jan 2031 25:00:00 GMT", "01 Jan 1600 00:00:00 GMT"]
+
+
+def http_date(ts: float, fmt: int = 0) -> str:
+    """The same instant in one of the shapes the RFC 6265 5.1.1 date algorithm must accept (fmt < 100), lower-cased (100+)."""
+    out = _time.strftime(DATE_FORMATS[fmt % 100 % len(DATE_FORMATS)], _time.gmtime(ts))
+    return out.lower() if fmt >= 100 else out
 
 
 def is_ip(host: str) -> bool:
@@ -132,6 +148,8 @@ class RefStore:
                 expiry = None
                 if sc.get("expires") is not None:
                     dontcare = True  # RFC: ignore the bad Max-Age, Expires applies; aiohttp: session cookie
+        elif sc.get("bad_date") is not None:
+            expiry = None  # RFC 6265 5.2.1: a date that fails to parse -> the attribute is ignored (session cookie)
         elif sc.get("expires") is not None:
             expiry = float(sc["expires"])
         key = (sc["name"], domain, p)
@@ -200,8 +218,10 @@ def set_cookie_header(sc: dict) -> str:
         parts.append(f"Path={sc['path']}")
     if sc.get("max_age") is not None:
         parts.append(f"Max-Age={sc['max_age']}")
-    if sc.get("expires") is not None:
-        parts.append(f"Expires={http_date(sc['expires'])}")
+    if sc.get("bad_date") is not None:
+        parts.append(f"Expires={BAD_DATES[sc['bad_date'] % len(BAD_DATES)]}")
+    elif sc.get("expires") is not None:
+        parts.append(f"Expires={http_date(sc['expires'], sc.get('date_fmt', 0))}")
     if sc.get("secure"):
         parts.append("Secure")
     return "; ".join(parts)
@@ -362,6 +382,8 @@ def set_cookie_st(trailing_slash: bool):
             "secure": st.booleans(),
             "max_age": st.sampled_from(["0", "5", "50", "-1", "abc"]),
             "expires_in": st.sampled_from([-10, 5, 50]),
+            "date_fmt": st.sampled_from(list(range(9)) + [100, 103, 105]),
+            "bad_date": st.sampled_from([None, None, None, None, None] + list(range(8))),
         },
     ).map(lambda d: {k: v for k, v in d.items() if v is not None})
 
